@@ -535,7 +535,11 @@ Definition step (s : st) (o : op) : outcome * st :=
   match o with
   | OWrite p q => op_write_page s p q
   | OTruncate n => op_truncate s n
-  | OCommitJournal c => op_commit_journal s c
+  | OCommitJournal c =>
+      (* a database file with nothing in it (the transaction that would have created the database was rolled back, SQLite
+         has cut the file to nothing): there is no size to read, the journal is invalidated and nothing is published *)
+      if writeable s && (pageN s =? 0) && (match dbfile s with [] => true | _ => false end) then op_invalidate_journal s
+      else op_commit_journal s c
   | OInvalidateJournal => op_invalidate_journal s
   | OWalHeader => op_wal_header s
   | OWalTruncate => op_wal_reset s true
